@@ -169,6 +169,16 @@ CLAIMED = {
              "update, all truncation lengths.",
         technique="Lean 4 proof (sibling-list update lemma, induction over update streams) + correspondence check",
         design_ref="6/C15"),
+    "C17": dict(
+        text="Theorems (every pre-existing wrapped database, every sequence of buffered writes and deletes, do_deletes on/off) on the "
+             "transcription of ScratchDB: the wrapped database is never written while the batch is open (wrapped_untouched); reads and "
+             "membership see the latest buffered write and read through after a buffered delete (read_latest, contains_latest); normal "
+             "exit applies last-write-wins, deletes only if requested, leaves untouched keys alone and empties the buffer (commit_spec); "
+             "exit by exception at any position leaves the wrapped database exactly as it was with an empty buffer (abort_spec); a "
+             "commit whose n-th write fails still empties the buffer and adds only buffered writes (commit_failure_spec). Tie: every "
+             "read / membership / copy(), the wrapped database during and after the block, buffer size, all exit kinds and positions.",
+        technique="Lean 4 proof (insertion-ordered dict model, induction over buffered actions) + correspondence check",
+        design_ref="6/C17"),
 }
 REASON_PENDING = "check not built yet in this revision (work in progress, see DESIGN.md section 10)"
 
